@@ -271,6 +271,9 @@ fn run(ctx: &Ctx) {
     let n = ctx.tier.pick(7, 8);
     let count = gen::exh_count(13, n);
     ctx.run_indexed("exh-bytes-slice", count, |i| Some(Case { input: B(gen::exh_bytes(gen::SIGMA1, i)), piece: None }), check);
+    let n2 = ctx.tier.pick(6, 7);
+    let count2 = gen::exh_count(gen::SIGMA2.len() as u64, n2);
+    ctx.run_indexed("exh-bytes-alphabet2-slice", count2, |i| Some(Case { input: B(gen::exh_bytes(gen::SIGMA2, i)), piece: None }), check);
     let nb = ctx.tier.pick(5, 6);
     let countb = gen::exh_count(13, nb);
     ctx.run_indexed("exh-bytes-buffered", countb * 2, |i| Some(Case { input: B(gen::exh_bytes(gen::SIGMA1, i / 2)), piece: Some((i % 2) as u8) }), check);
